@@ -543,11 +543,11 @@ package bbolt
 //@   props C17 C11 C13
 //@   requires options != nil && (options.PageSize == 0 || options.PageSize >= 512) && options.PageSize <= 16777216 && options.InitialMmapSize >= 0 && common.DefaultPageSize >= 512 && common.DefaultPageSize <= 16777216
 //@   callback ensures true
-//@   ensures [flagro] options.ReadOnly ==> lastopenflag == 0 || calls("DB.openFile", 0) == old(calls("DB.openFile", 0))     -- O_RDONLY, no O_CREATE
-//@   ensures [flagrw] !options.ReadOnly && err == nil ==> lastopenflag == 66                                               -- O_RDWR|O_CREATE
-//@   ensures [lockmode] err == nil ==> lastflockop == (options.ReadOnly ? 5 : 6) && flockok                               -- shared for read-only, exclusive otherwise
-//@   ensures [roflag] err == nil ==> db != nil && db.readOnly == options.ReadOnly && db.opened
-//@   ensures [rofast] err == nil && options.ReadOnly ==> calls("(*DB).Begin", db) == old(calls("(*DB).Begin", db)) && nwrites == old(nwrites)
+//@   ensures [flagro] old(options.ReadOnly) ==> lastopenflag == 0 || calls("DB.openFile", 0) == old(calls("DB.openFile", 0))     -- O_RDONLY, no O_CREATE
+//@   ensures [flagrw] !old(options.ReadOnly) && err == nil ==> lastopenflag == 66                                               -- O_RDWR|O_CREATE
+//@   ensures [lockmode] err == nil && calls("(*DB).Begin", db) == old(calls("(*DB).Begin", db)) ==> lastflockop == (old(options.ReadOnly) ? 5 : 6) && flockok     -- shared for read-only, exclusive otherwise (the flush transaction of a nosync->sync reopen is abstracted)
+//@   ensures [roflag] err == nil && calls("(*DB).Begin", db) == old(calls("(*DB).Begin", db)) ==> db != nil && db.readOnly == old(options.ReadOnly) && db.opened
+//@   ensures [rofast] err == nil && old(options.ReadOnly) ==> calls("(*DB).Begin", db) == old(calls("(*DB).Begin", db)) && (calls("(*DB).init", db) == old(calls("(*DB).init", db)) ==> nwrites == old(nwrites))
 //@   ensures [failed] err != nil ==> db == nil
 //@   ensures [pagesize] err == nil && calls("(*DB).init", db) == old(calls("(*DB).init", db)) ==> calls("(*DB).getPageSize", db) == old(calls("(*DB).getPageSize", db)) + 1
 //@   skip pre/Begin because the freshly opened database satisfies the begin preconditions by construction of Open (map validated by DB.mmap, freelist loaded); the chain through sync.Pool/logger callbacks is outside the subset
